@@ -718,6 +718,8 @@ struct Model {
     reobs_pending: bool,
     /// the previous action was a stabilise in which make_stale was called
     stale_prev: bool,
+    /// make_stale was called while the expert node was not needed; its recompute is still due
+    stale_pending: bool,
     removed_stale_child: bool,
 }
 
@@ -1076,15 +1078,27 @@ impl ExpertWorld {
         }
         // ---- make_stale (not judged on a node that just turned out to be wrongly invalid: that is
         // the wedge reported above, not a second defect)
+        let pending_before = self.model.stale_pending;
         if stale_called && !self.model.x_dead() && !wedged {
-            if recomputes != 1 {
+            if !self.model.nec {
+                // called while nobody needs the expert node (its driver is kept running by an observer of its own):
+                // the one recompute it forces is due at the first stabilise in which the node is needed again
+                self.model.stale_pending = true;
+                self.note("make_stale_called_while_unneeded");
+            } else if recomputes != 1 {
                 vs.push(viol("C14.make_stale", if recomputes == 0 { "no_recompute" } else { "several_recomputes" }, format!("{cons}: make_stale was called in this stabilise, the expert node ran {recomputes} times")));
             }
+        }
+        if pending_before && self.model.nec && !self.model.x_dead() && !wedged {
+            if recomputes != 1 {
+                vs.push(viol("C14.make_stale", "lost_while_unobserved", format!("{cons}: make_stale was called while the expert node was not needed; in the first stabilise in which it is needed again it ran {recomputes} times instead of once")));
+            }
+            self.model.stale_pending = false;
         }
         if stale_prev && !self.model.x_dead() && !wedged && recomputes != 0 {
             vs.push(viol("C14.make_stale", "repeats", format!("{cons}: nothing happened since the stabilise in which make_stale was called, yet the expert node ran again ({recomputes} times)")));
         }
-        self.model.stale_prev = stale_called && !self.model.x_dead();
+        self.model.stale_prev = stale_called && self.model.nec && !self.model.x_dead();
         if wedged {
             // the node is gone for good: nothing more to learn along this history
             self.dead = true;
@@ -1126,6 +1140,7 @@ impl World for ExpertWorld {
             x_invalidated: false,
             reobs_pending: false,
             stale_prev: false,
+            stale_pending: false,
             removed_stale_child: false,
         };
         let (real, dead, explain) = match built {
@@ -1291,6 +1306,7 @@ impl World for ExpertWorld {
             m.stale_prev as u8,
             m.removed_stale_child as u8
         ));
+        s.push_str(&format!(" sp{}", m.stale_pending as u8));
         let s = abbreviate_incr_values(&s);
         Some(canonicalise_dump(&s))
     }
